@@ -1,6 +1,5 @@
 """CSS matcher."""
 from __future__ import annotations
-from datetime import datetime
 from . import util
 import re
 from . import css_types as ct
@@ -447,7 +446,20 @@ class Inputs:
     def validate_week(year: int, week: int) -> bool:
         """Validate week."""
 
-        max_week = datetime.strptime(f"{12}-{31}-{year}", "%m-%d-%Y").isocalendar()[1]
+        # ISO week of December 31st, computed arithmetically: `strptime` only handles the years 1000-9999
+        # and raised `ValueError` for any other year >= 1.
+        def dec31_weekday(y: int) -> int:
+            """Weekday of December 31st (0 is Sunday)."""
+            return (y + y // 4 - y // 100 + y // 400) % 7
+
+        weekday = dec31_weekday(year)
+        if weekday == 4 or dec31_weekday(year - 1) == 3:
+            max_week = 53
+        elif 1 <= weekday <= 3:
+            # December 31st already belongs to week 1 of the next year
+            max_week = 1
+        else:
+            max_week = 52
         if max_week == 1:
             max_week = 53
         return 1 <= week <= max_week
